@@ -179,6 +179,7 @@ def usegraph_cases(k, reduced):
     defaults = ("public", "private") if reduced == 1 else DEFAULTS
     edgesv = (None, "all", "only_x") if reduced else EDGES
     uedgesv = (None, "all", "only_x", "only_y") if reduced == 2 else edgesv
+    uedgesv = uedgesv + ("only_none",)     # 'use m, only:' - an empty ONLY list imports nothing
     pairs = [(i, j) for i in range(k) for j in range(i)]
     for mods in itertools.product(itertools.product(decls, defaults), repeat=k):
         for ev in itertools.product(edgesv, repeat=len(pairs)):
@@ -226,6 +227,7 @@ def build_usegraph(p):
             put("y", ex["x"])
         elif spec == "only_z":
             put(f"z{j}", f"M{j}::z")
+        # only_none: nothing
     ws = Workspace()
 
     def use_line(j, spec):
@@ -235,6 +237,8 @@ def build_usegraph(p):
             return f"  use um{j}, only: x"
         if spec == "only_y":
             return f"  use um{j}, only: y => x"
+        if spec == "only_none":
+            return f"  use um{j}, only:"
         return f"  use um{j}, only: z{j}"
 
     for i, (decl, default) in enumerate(mods):
